@@ -32,9 +32,9 @@ partial def canonPU : PU → String
       " ".intercalate ("patch" :: p) ++ "))"
 
 def showPUErr : PUErr → String
-  | .excluded f => "err pu-excluded " ++ toHex f
-  | .conflict f => "err pu-conflict " ++ toHex f
-  | .cannotDelete f => "err pu-cannot-delete " ++ toHex f
+  | .excluded f => "err pu " ++ toHex f
+  | .conflict f => "err pu " ++ toHex f
+  | .cannotDelete f => "err pu " ++ toHex f
 
 /-- `puenc <module> <env> <record> <excl> <pu>`: compact JSON of `MarshalRestLi` -/
 def opPuEnc (args : List Sexp) : String :=
@@ -46,7 +46,7 @@ def opPuEnc (args : List Sexp) : String :=
       match marshalPU cfg 100000 n pu with
       | .error (.pu e) => showPUErr e
       | .error (.enc .enum) => "err enum"
-      | .error (.enc .union) => "err union"
+      | .error (.enc .union) => "err other"
       | .error (.enc .illTyped) => "err illtyped"
       | .error (.enc .fuel) => "fuel"
       | .ok doc => "ok " ++ toHex (renderJson doc)
@@ -62,11 +62,11 @@ def opPuDec (args : List Sexp) : String :=
       match unmarshalPUJson { env := env, tracker := { excl := excl, ignore := ignore } } n data with
       | none => "unmodelled json-nonstrict"
       | some (.ok pu _) => "ok " ++ canonPU pu
-      | some (.err .syntax) => "err syntax"
+      | some (.err .syntax) => "err other"
       | some (.err (.excluded p)) => "err excluded " ++ toHex p
       | some (.err (.missing ps)) => "err missing (" ++ " ".intercalate ((sortPaths ps).map toHex) ++ ")"
-      | some (.err .union) => "err union"
-      | some (.err .fixed) => "err fixed"
+      | some (.err .union) => "err other"
+      | some (.err .fixed) => "err other"
       | some (.err (.pu e)) => showPUErr e
       | some .panic => "panic"
       | some .fuel => "fuel"
